@@ -21,6 +21,8 @@ Round 3 (one change per property; the brief listed every dimension the generator
 
 Round 4 (two changes per property, this time *realistic maintenance work*: A a performance change - fast path, cache, precomputation - and B a refactoring, clean-up, robustness or small feature change, each with a believable motivation and correct on the common path): 32 of 40 caught at first contact by their own property's check. Of the 8 misses, 5 were caught at once by a neighbouring property's check aimed at the same mechanism (C09 for C04's and C13's escape changes, C01/C02 for C06's fast path, C16 for C14's shared filter context, C18 for C17's cycle detector); 3 were caught by no check (C05's two and C15's `find_one('$')`). The sub-agents' side remarks on the unchanged code led to findings AP and AQ.
 
+Round 5 (two changes per property again, other kinds of maintenance work: A a bug fix or edge-case improvement answering a plausible user report, B a modernisation or dependency change - match statements, `str.translate`, `json.loads` for unescaping, ChainMap registries, compile-time precomputation; the brief asked to avoid the mechanisms already tried): 31 of 40 caught at first contact by their own property's check. Of the 9 others, one made C05 end in a harness error (exit 2) instead of a violation - its own set-up tripped over the changed registry type - which was a defect of the harness; 5 were caught by a neighbouring property's check (C03/C08 for C01's, C17 for C02's, C14 for C15's, C18 for C17's); 3 by none. Side remarks gave finding AR.
+
 Every miss was a region the generators did not reach, never an oracle that accepted the wrong behaviour; each led to a general widening of a generator, described in the `first contact` column and in DESIGN.md section 6.
 """
 
@@ -37,7 +39,7 @@ for d in sorted(glob.glob("/verif/seeded/*/")):
     if os.path.exists(p):
         metas.append((os.path.basename(d.rstrip("/")), json.load(open(p))))
 missing = []
-for rnd in (1, 2, 3, 4):
+for rnd in (1, 2, 3, 4, 5):
     out.append(f"\n## Round {rnd}\n\n| id | needs, to manifest | first contact | now (quick tier, seed 1) |\n|---|---|---|---|\n")
     for sid, m in metas:
         if m.get("round", 1) != rnd:
